@@ -467,6 +467,15 @@ pub fn run(ctx: &mut Ctx) {
             }
         }
     }
+    // ---- every errno the stream can report (1..=133): all but EINTR are "a non-interrupt error", at the first
+    // write and after a short write, with a second response queued behind
+    if ctx.shard == 3 % ctx.nshards {
+        for e in 1..=133i32 {
+            ctx.rep.count("errno_sweep");
+            exec(ctx, &[Act::Enq(1), Act::Enq(2), Act::W(WriteEv::Err(e)), Act::W(WriteEv::Accept(usize::MAX)), Act::Enq(1), Act::W(WriteEv::Accept(usize::MAX))]);
+            exec(ctx, &[Act::Enq(2), Act::W(WriteEv::Accept(5)), Act::W(WriteEv::Err(e)), Act::W(WriteEv::Accept(usize::MAX)), Act::Enq(1), Act::W(WriteEv::Accept(usize::MAX)), Act::W(WriteEv::Accept(usize::MAX))]);
+        }
+    }
     // ---- single responses: every k in 1..len at the first and at the second write
     let mut idx = 0u64;
     for id in [0u8, 1, 2, 3, 5, 16, 17] {
